@@ -72,3 +72,14 @@ add('C14',
     assumptions=['std::unordered_map is the executable reference map'],
     )
 C16_JOBS.append(job('hashmap', 'c14_hashmap.cpp', args=['--arg', 'prop=C16'], shards={'quick': 4, 'thorough': 8}, hang_is_violation=True))
+
+# ---------------------------------------------------------------------------------------------- C17
+add('C17',
+    level='exploration',
+    rule='operation sequences on pairs of optional / variant / expected / manual_box / unique_ptr / unique_memory holders compared with a (state, value) model after every operation (exhaustive to length 4-6, random to 50), plus tuple/eternal/expected<void> batteries on random values',
+    jobs=[job('holders', 'c17_holders.cpp', args=['--arg', 'prop=C17'], shards={'quick': 8, 'thorough': 16}, hang_is_violation=True)],
+    min_evaluations={'quick': 100000, 'thorough': 1000000},
+    min_counters={'exhaustive_sequences': 50000, 'tuple_cases': 100},
+    assumptions=['the (state,value) models follow std::optional / std::variant / a 10-line expected model; moved-from holders keep their state with an unspecified value'],
+    )
+C16_JOBS.append(job('holders', 'c17_holders.cpp', args=['--arg', 'prop=C16'], shards={'quick': 4, 'thorough': 8}, hang_is_violation=True))
